@@ -30,6 +30,9 @@
 (*   Cleanup          Logger.cleanup()                                                *)
 (*   AddFunction(s,f) EquationSolver.AddFunction('f', <body f>): the same NAME with    *)
 (*                    different bodies on different solvers                            *)
+(*   SetSteady(s, on) <solver>.ParameterSolveInitialSteadyState = on (with a short      *)
+(*                    ParameterInitialSteadyStateMaxTime): part of the solver's own     *)
+(*                    configuration; every SolveEquation() with it on runs the search   *)
 (*   Reparse(s, b)    EquationSolver.ParseString(block b)                              *)
 (*   Solve(s)         first SolveEquation() after a parse                             *)
 (*   SolveAgain(s)    SolveEquation() again on the same solver                        *)
@@ -54,8 +57,10 @@ CONSTANTS
     Hyp_IdResetPerModel,            \* TRUE: hypothetical design "every Model() restarts the id counter" (never the code;
                                     \* MC_Process_hyp_idreset.cfg shows that it breaks C17_HistoryIndependent)
     Hyp_SharedFunctions,            \* TRUE: hypothetical "one function table for all solvers" (MC_Process_hyp_sharedfunc.cfg)
-    Hyp_RhsCachedByName             \* TRUE: hypothetical "right-hand sides cached per variable name across ParseString"
+    Hyp_RhsCachedByName,            \* TRUE: hypothetical "right-hand sides cached per variable name across ParseString"
                                     \* (MC_Process_hyp_rhscache.cfg: breaks C17_ReparseClean)
+    Hyp_SteadyOneShot               \* TRUE: hypothetical "the steady-state option is consumed by the first solve"
+                                    \* (MC_Process_hyp_steady.cfg: breaks C17_HistoryIndependent / C17_ResolveIdempotent)
 
 Holders == Solvers \cup Models      \* everything that owns an EquationSolver
 
@@ -63,7 +68,8 @@ NoBlock  == "none"
 NoDecl   == [sectorIds |-> << >>, ph |-> {}, refs |-> {}]
 NoResult == [names |-> {}, leaked |-> {}, booked |-> {}]
 NoFunc   == "none"
-NoSeries == [keys |-> {}, full |-> TRUE, ok |-> TRUE, body |-> NoFunc, own |-> NoFunc, eqs |-> NoBlock]
+NoSeries == [keys |-> {}, full |-> TRUE, ok |-> TRUE, body |-> NoFunc, own |-> NoFunc, eqs |-> NoBlock,
+             ss |-> FALSE, want |-> FALSE]
 
 ----------------------------------------------------------------------------
 (* Logger *)
@@ -122,8 +128,9 @@ SeriesKeys(b) == BlockInfo[b].vars \cup {"k"}
 ParseOp(vl) == IF AsFound_VarListCached THEN vl ELSE {}
 
 (* fn: the function body the solver evaluates with, own: the body the solver itself     *)
-(* registered, rf: the block whose right-hand sides it holds from earlier evaluations   *)
-SolveOp(b, vl, tr, fn, own, rf) ==
+(* registered, rf: the block whose right-hand sides it holds from earlier evaluations,  *)
+(* ss: the initial steady-state search runs, want: the option as the user set it        *)
+SolveOp(b, vl, tr, fn, own, rf, ss, want) ==
     LET used       == IF vl = {} THEN BlockInfo[b].vars ELSE vl      \* ExtractVariableList only when empty
         keys       == used \cup BlockInfo[b].early \cup {"k"}
         complete   == BlockInfo[b].vars \subseteq keys               \* else KeyError in the first step
@@ -131,7 +138,8 @@ SolveOp(b, vl, tr, fn, own, rf) ==
         noFunction == BlockInfo[b].func /\ fn = NoFunc               \* NameError in the first step
         good       == complete /\ ~traceFails /\ ~noFunction
     IN [varList |-> used,
-        started |-> IF ~complete \/ noFunction THEN 1                 \* periods begun: the first one already fails,
+        started |-> IF ~complete \/ noFunction THEN (IF ss THEN 0 ELSE 1)   \* periods begun: the first one already fails
+                                                                       \* (inside the steady-state search if that runs),
                     ELSE IF traceFails THEN tr                         \* the traced one fails,
                     ELSE BlockInfo[b].horizon,                         \* all
         series  |-> [keys |-> keys,
@@ -139,17 +147,19 @@ SolveOp(b, vl, tr, fn, own, rf) ==
                      ok   |-> good,
                      body |-> IF BlockInfo[b].func THEN fn ELSE NoFunc,
                      own  |-> IF BlockInfo[b].func THEN own ELSE NoFunc,
-                     eqs  |-> IF rf = NoBlock THEN b ELSE rf]]
+                     eqs  |-> IF rf = NoBlock THEN b ELSE rf,
+                     ss   |-> ss,
+                     want |-> want]]
 
 ----------------------------------------------------------------------------
 VARIABLES nextId, logs,
           mstate, decl, result,
-          block, varList, series, solved, func, reg, rhsFrom, nK, parses,
+          block, varList, series, solved, func, reg, rhsFrom, steady, wantSteady, nK, parses,
           traceStep,
           hist
 
 mvars == << mstate, decl, result >>
-svars == << block, varList, series, solved, func, reg, rhsFrom, nK, parses >>
+svars == << block, varList, series, solved, func, reg, rhsFrom, steady, wantSteady, nK, parses >>
 vars  == << nextId, logs, mvars, svars, traceStep, hist >>
 
 Init ==
@@ -165,6 +175,8 @@ Init ==
     /\ func = [s \in Solvers |-> NoFunc]
     /\ reg = [s \in Solvers |-> NoFunc]
     /\ rhsFrom = [s \in Solvers |-> NoBlock]
+    /\ steady = [s \in Solvers |-> FALSE]
+    /\ wantSteady = [s \in Solvers |-> FALSE]
     /\ nK = [s \in Solvers |-> 0]
     /\ parses = [s \in Solvers |-> 0]
     /\ traceStep = [x \in Holders |-> 0]
@@ -226,26 +238,35 @@ Reparse(s, b) ==
     /\ nK' = [nK EXCEPT ![s] = 0]                                   \* new parser object
     /\ parses' = [parses EXCEPT ![s] = @ + 1]
     /\ Note("Reparse", s, b, 0)
-    /\ UNCHANGED << nextId, logs, mvars, series, func, reg, traceStep >>      \* Functions survive a re-parse
+    /\ UNCHANGED << nextId, logs, mvars, series, func, reg, steady, wantSteady, traceStep >>   \* Functions and options survive a re-parse
 
 AddFunction(s, f) ==
     /\ f # reg[s]
     /\ reg' = [reg EXCEPT ![s] = f]
     /\ func' = IF Hyp_SharedFunctions THEN [t \in Solvers |-> f] ELSE [func EXCEPT ![s] = f]
     /\ Note("AddFunction", s, f, 0)
-    /\ UNCHANGED << nextId, logs, mvars, block, varList, series, solved, rhsFrom, nK, parses, traceStep >>
+    /\ UNCHANGED << nextId, logs, mvars, block, varList, series, solved, rhsFrom, steady, wantSteady, nK, parses, traceStep >>
+
+SetSteady(s, on) ==
+    /\ on # wantSteady[s]
+    /\ wantSteady' = [wantSteady EXCEPT ![s] = on]
+    /\ steady' = [steady EXCEPT ![s] = on]
+    /\ Note("SetSteady", s, "", IF on THEN 1 ELSE 0)
+    /\ UNCHANGED << nextId, logs, mvars, block, varList, series, solved, func, reg, rhsFrom, nK, parses, traceStep >>
 
 DoSolve(s, name) ==
-    LET r == SolveOp(block[s], varList[s], traceStep[s], func[s], reg[s], rhsFrom[s])
+    LET r == SolveOp(block[s], varList[s], traceStep[s], func[s], reg[s], rhsFrom[s], steady[s], wantSteady[s])
     IN /\ varList' = [varList EXCEPT ![s] = r.varList]
        /\ series' = [series EXCEPT ![s] = r.series]
        /\ solved' = [solved EXCEPT ![s] = TRUE]
        /\ nK' = [nK EXCEPT ![s] = @ + 1]        \* SetInitialConditions appends ('k', ..) every time
-       /\ logs' = LET l1 == Touch(logs, "log")
+       /\ steady' = [steady EXCEPT ![s] = IF Hyp_SteadyOneShot THEN FALSE ELSE @]
+       /\ logs' = LET l0 == Touch(logs, "log")
+                      l1 == IF steady[s] THEN Touch(l0, "steadystate_0") ELSE l0    \* the search dumps its series
                   IN IF traceStep[s] \in 1..r.started THEN Touch(l1, "step") ELSE l1     \* the traced period was begun
        /\ Note(name, s, block[s], 0)
        /\ rhsFrom' = [rhsFrom EXCEPT ![s] = r.series.eqs]
-       /\ UNCHANGED << nextId, mvars, block, func, reg, parses, traceStep >>
+       /\ UNCHANGED << nextId, mvars, block, func, reg, wantSteady, parses, traceStep >>
 
 Solve(s)      == block[s] # NoBlock /\ ~solved[s] /\ DoSolve(s, "Solve")
 SolveAgain(s) == block[s] # NoBlock /\ solved[s] /\ DoSolve(s, "SolveAgain")
@@ -262,6 +283,7 @@ Next ==
     \/ ({n \in LogNames : logs[n] = "none"} # {}) /\ RegisterLogs
     \/ ({n \in LogNames : logs[n] # "none"} # {}) /\ Cleanup
     \/ \E s \in Solvers : Solve(s) \/ SolveAgain(s) \/ (\E b \in Blocks : Reparse(s, b)) \/ (\E f \in FuncBodies : AddFunction(s, f))
+                           \/ (\E on \in BOOLEAN : SetSteady(s, on))
     \/ \E x \in Holders, k \in TraceSteps : SetTrace(x, k)
 
 Spec == Init /\ [][Next]_vars
@@ -272,6 +294,7 @@ C17_HistoryIndependent ==
     /\ \A m \in Models : mstate[m] = "built" => result[m] = Expected(m)
     /\ \A s \in Solvers : (solved[s] /\ series[s].keys = SeriesKeys(block[s])) =>
           /\ series[s].body = series[s].own            \* evaluated with what this solver registered itself
+          /\ series[s].ss = series[s].want             \* the steady-state search ran iff this solver is configured so
           /\ series[s].ok = ~(BlockInfo[block[s]].func /\ series[s].own = NoFunc)   \* fails iff its function is missing
           /\ series[s].full = series[s].ok
 
@@ -280,9 +303,10 @@ C17_ReparseClean ==
                                     /\ series[s].eqs = block[s]        \* no right-hand side of the previous block
 
 (* action property: solving again (whatever the trace setting is now) leaves the series as they were, *)
-(* unless the solver itself was given another function in between                                      *)
+(* unless the solver itself was given another function or another option in between                    *)
 C17_ResolveIdempotent ==
-    [][\A s \in Solvers : (solved[s] /\ solved'[s] /\ block'[s] = block[s] /\ series'[s].own = series[s].own)
+    [][\A s \in Solvers : (solved[s] /\ solved'[s] /\ block'[s] = block[s] /\ series'[s].own = series[s].own
+                             /\ series'[s].want = series[s].want)
                             => series'[s] = series[s]]_vars
 
 TypeOK ==
